@@ -45,7 +45,8 @@ Inductive cqe := CNotify | CFinal | COther.
 Inductive cont := KSpin | KPushed | KMain.
 Inductive wpc :=
 | WIdle                 (* wake() not yet called *)
-| WCoal                 (* start_scheduling saw SCHEDULED: next finish_scheduling *)
+| WCoal                 (* start_scheduling saw SCHEDULED (and SCHEDULING clear): next finish_scheduling *)
+| WSection              (* flipped SCHEDULED while another waker holds SCHEDULING: retry start_scheduling *)
 | WReserve              (* next pending.fetch_add(1) *)
 | WPush (nt : bool)     (* next sync.push; nt = the driver was already woken (queue was full) *)
 | WFetch (k : cont)     (* Notify::wake_by_ref: next fetch_or(NOTIFIED) *)
@@ -298,9 +299,17 @@ Definition w_step (v : variant) (s : st) (i : nat) : option st :=
       match nth_error (sched (e s)) t with
       | None => None
       | Some prior =>
+        let held := match nth_error (sching (e s)) t with Some b => b | None => false end in
         let e1 := e_sching (upd (sching (e s)) t true) (e_sched (upd (sched (e s)) t true) (e s)) in
-        Some (set_w (s_e e1 s) i (w_wp (if prior then WCoal else WReserve) w))
+        Some (set_w (s_e e1 s) i
+                (w_wp (if prior then (if held then WDone else WCoal)     (* coalesced *)
+                       else (if held then WSection else WReserve)) w))
       end
+    | WSection, Some t =>
+      (* yield, then start_scheduling again until the SCHEDULING section is free *)
+      let held := match nth_error (sching (e s)) t with Some b => b | None => false end in
+      let e1 := e_sching (upd (sching (e s)) t true) (e_sched (upd (sched (e s)) t true) (e s)) in
+      Some (set_w (s_e e1 s) i (w_wp (if held then WSection else WReserve) w))
     | WCoal, Some t | WFinish, Some t =>
       Some (set_w (s_e (e_sching (upd (sching (e s)) t false) (e s)) s) i (w_wp WDone w))
     | WReserve, Some _ =>
@@ -368,14 +377,20 @@ Definition at_wait (s : st) : bool :=
   | _ => false
   end.
 
-(* a waker thread whose next step is enabled and is not a retry on a full queue *)
-Definition in_flight (s : st) (p : wpc) : bool :=
-  match p with
-  | WReserve | WPush false | WFetch _ | WWrite _ => true
+(* a waker thread whose next step is enabled and is not a retry (full queue,
+   SCHEDULING section held by another waker) *)
+Definition in_flight (s : st) (w : wst) : bool :=
+  match wp w with
+  | WCoal | WReserve | WPush false | WFetch _ | WWrite _ | WFinish => true
   | WPush true => Nat.ltb (length (queue (e s))) (qcap (c s))
+  | WSection =>
+    match tgt w with
+    | Some t => match nth_error (sching (e s)) t with Some b => negb b | None => false end
+    | None => false
+    end
   | _ => false
   end.
-Definition some_in_flight (s : st) : bool := existsb (fun w => in_flight s (wp w)) (wk s).
+Definition some_in_flight (s : st) : bool := existsb (in_flight s) (wk s).
 
 Definition knotify_enabled (s : st) : bool :=
   uring (c s) && karmed (d s) && Nat.ltb 0 (efd (d s)).
